@@ -904,9 +904,18 @@ fn stub_path_join<P: AsRef<std::path::Path>>(_this: &std::path::Path, _p: P) -> 
 /// Contract of `Context::cache_next_reference_id`, discharged on the real function by u_ctx_write:
 /// with use_cache off nothing happens, otherwise the lock file records exactly the id it is given
 /// (whatever the stop flag or the mode say).
-fn stub_cache_next_reference_id(this: &Context, id: u32, _directory_path: &str)
+static mut LOCK_DIR_OK: bool = true;
+
+fn stub_cache_next_reference_id(this: &Context, id: u32, directory_path: &str)
 {
     unsafe {
+        // (C15) the directory the lock goes to is the configuration file's, "c" in these harnesses
+        let d = directory_path.as_bytes();
+        let c = this.config.config_dir.as_bytes();
+        if d.len() != c.len() || (d.len() == 1 && d[0] != c[0])
+        {
+            LOCK_DIR_OK = false;
+        }
         if this.config.use_cache
         {
             LOCK_WRITES += 1;
@@ -964,8 +973,8 @@ fn any_context(check_mode: bool) -> Context
     };
     Context {
         config: Config {
-            config_dir: String::new(),
-            source_dir: String::new(),
+            config_dir: String::from("c"),
+            source_dir: String::from("s"),
             use_cache,
             rust: RustConfig {
                 structured: sym_bool(),
@@ -1047,6 +1056,7 @@ fn generate_body(kill_window: bool)
         kani::cover!(cached.is_none() && G_MAX == u32::MAX - 2 && G_W == 1, "last usable id of the range handed out");
 
         assert!(fsm::OPS == 0, "model: drivers perform no file operation outside the passes");
+        assert!(LOCK_DIR_OK, "C15: the lock file is written to the directory of the configuration file");
         kani::cover!(!kill_window || G_W > 0, "tokens on disk");
         if kill_window
         {
